@@ -180,15 +180,22 @@ def _u10_from_bulk_rate_point(
             time_derivative_spectrum,
         )
 
+        # NOTE: all arguments are passed by position on purpose. In compiled code a
+        # call with keyword arguments inside a try block ends up in the except branch
+        # even though nothing is raised (every estimate came back as NaN).
+        max_iterations = 100
+        aitken_acceleration = True
         try:
             u10 = numba_newton_raphson(
                 _u10_iteration_function,
                 u10,
                 args,
                 (0, np.inf),
-                atol=atol,
-                rtol=rtol,
-                numerical_stepsize=numerical_stepsize,
+                max_iterations,
+                aitken_acceleration,
+                atol,
+                rtol,
+                numerical_stepsize,
             )
         except:
             u10 = np.nan
